@@ -7,7 +7,8 @@ R=$1; shift
 mkdir -p /tmp/seed
 for P in "$@"; do
 	WT=/tmp/seed/$P-$R-wt; OUT=/tmp/seed/$P-$R-out
-	rm -rf "$OUT"; mkdir -p "$OUT/m1" "$OUT/m2"
+	rm -rf "$OUT"; mkdir -p "$OUT"
+	if [ "${TMPL:-seedprompt.tmpl}" = "benignprompt.tmpl" ]; then mkdir -p "$OUT/b1" "$OUT/b2" "$OUT/b3" "$OUT/b4"; else mkdir -p "$OUT/m1" "$OUT/m2"; fi
 	[ -d "$WT" ] || git -C /repo worktree add -q --detach "$WT" HEAD
 	python3 - "$P" "$WT" "$OUT" <<'E'
 import json, sys
@@ -21,7 +22,8 @@ a = prop['anchors']
 text = "%s: %s\n\nStatement: %s\n\nQuantified: %s\n\nWhy unit tests cannot settle it: %s\n\nWhere it lives: files %s\n%s" % (
     pid, prop['title'], prop['statement'], prop['quantifier']['text'], prop['why_tests_cant'], ", ".join(a['files']),
     "\n".join(" - %s: %s" % (m['name'], m['where']) for m in a['mechanism']))
-t = open('/verif/tools/seedprompt.tmpl').read()
+import os
+t = open('/verif/tools/' + os.environ.get('TMPL', 'seedprompt.tmpl')).read()
 t = t.replace('@WT@', wt).replace('@OUT@', out).replace('@ID@', pid).replace('@PROPERTY@', text)
 open('/tmp/seed/%s-%s-prompt.txt' % (pid, out.split('-')[-2]), 'w').write(t)
 E
